@@ -265,8 +265,13 @@ func runPgHistory(ops []pgOp, faults map[int]int) *pgResult {
 	bad := func(class string, step int, attrs map[string]string, format string, a ...interface{}) *pgResult {
 		return res(&pgViolation{class, step, fmt.Sprintf(format, a...), attrs})
 	}
+	bg := ctx
 	for i, op := range ops {
 		h := e.hs[op.H]
+		// every operation runs under its own request context; a cancellation fault ends it in mid-flight
+		ctx, cancel := context.WithCancel(bg)
+		e.srv.OnCancel = cancel
+		defer cancel()
 		before := len(e.srv.Log)
 		desc := op.String()
 		var err error
@@ -672,7 +677,7 @@ func runC13(c *core.Ctx) *core.Outcome {
 	// every single call position, every fault variant that applies to it
 	kinds := r0.kinds
 	for p := 1; p <= n; p++ {
-		variants := []int{pgfake.FaultErr}
+		variants := []int{pgfake.FaultErr, pgfake.FaultCancel}
 		if p-1 < len(kinds) && kinds[p-1] == "Commit" {
 			variants = append(variants, pgfake.FaultCommitDoubt)
 		}
@@ -684,6 +689,9 @@ func runC13(c *core.Ctx) *core.Outcome {
 				name := "pg_fail:" + k
 				if f == pgfake.FaultCommitDoubt {
 					name += "(in doubt)"
+				}
+				if f == pgfake.FaultCancel {
+					name += "(context cancelled)"
 				}
 				o.Faults[name] += cnt
 			}
